@@ -2,6 +2,7 @@ import DaskModel.Lemmas.ArrOverlapLemmas
 import DaskModel.Lemmas.ArrOverlapLocal
 import DaskModel.Lemmas.ArrOverlapBoundary
 import DaskModel.Lemmas.ArrPadsLemmas
+import DaskModel.Lemmas.ArrOverlapTrimArg
 /-!
 # C26 — overlap computations match the unchunked stencil (theorems)
 
@@ -137,6 +138,17 @@ example : windows 3 [0, 1, 2, 3, 4, 5, 6, 7] = [[0, 1, 2], [1, 2, 3], [2, 3, 4],
 /-- the guard is needed: a block shorter than `d` cannot supply its left neighbour's windows -/
 theorem sliding_window_needs_guard :
     (slidingBlocks 3 [[0, 1, 2], [3], [4, 5]]).flatten ≠ windows 3 [0, 1, 2, 3, 4, 5] := by decide
+
+/-- **Which argument governs the trim of `map_overlap`.** With several array arguments (each overlapped by its OWN depth
+    and boundary), `trim_internal` is applied with the depth and boundary of argument
+    `sorted(enumerate(args), key=lambda v: (v[1].ndim, -v[0]))[-1][0]`: for every non-empty list of ranks this is an
+    argument of the highest rank, and no earlier argument has that rank — the FIRST argument of highest rank. -/
+theorem trim_follows_first_highest_rank (ranks : List Nat) (hne : ranks ≠ []) :
+    ∃ i r, trimArg ranks = some i ∧ ranks[i]? = some r ∧ (∀ (j r' : Nat), ranks[j]? = some r' → r' ≤ r) ∧
+      (∀ (j r' : Nat), j < i → ranks[j]? = some r' → r' < r) :=
+  trimArg_spec ranks hne
+
+example : trimArg [1, 2, 2, 1] = some 1 ∧ trimArg [2, 2] = some 0 ∧ trimArg [1, 1, 3] = some 2 := by decide
 
 theorem ensure_min_ok (size : Nat) (chunks r : List Nat) (h : ensureMin size chunks = some r) :
     r.sum = chunks.sum ∧ ∀ c ∈ r, size ≤ c :=
